@@ -145,7 +145,9 @@ class ChaseLevDeque {
    *       the full/empty check, and the slot write. No fence, no CAS.
    */
   bool try_push(const T& item) {
+    DISPENSO_VERIF_POINT("PushLdBot", this);
     const int64_t b = bottom_.load(std::memory_order_relaxed);
+    DISPENSO_VERIF_POINT("PushLdTop", this);
     const int64_t t = top_.load(std::memory_order_acquire);
     if (b - t >= static_cast<int64_t>(Capacity)) {
       return false;
@@ -159,6 +161,7 @@ class ChaseLevDeque {
     DISPENSO_TSAN_ANNOTATE_IGNORE_WRITES_END();
     // Release on bottom_ publishes the slot write to any acquire load of bottom_
     // (i.e., the load in try_steal).
+    DISPENSO_VERIF_POINT("PushStBot", this);
     bottom_.store(b + 1, std::memory_order_release);
     return true;
   }
@@ -174,14 +177,19 @@ class ChaseLevDeque {
    *       no CAS — only a relaxed store, a seq_cst fence, and a relaxed load.
    */
   bool try_pop(T& out) {
+    DISPENSO_VERIF_POINT("PopLdBot", this);
     const int64_t b = bottom_.load(std::memory_order_relaxed) - 1;
+    DISPENSO_VERIF_POINT("PopStBot", this);
     bottom_.store(b, std::memory_order_relaxed);
     // Seq-cst fence orders our bottom store before the top load, matching steal's fence.
+    DISPENSO_VERIF_POINT("PopFence", this);
     std::atomic_thread_fence(std::memory_order_seq_cst);
+    DISPENSO_VERIF_POINT("PopLdTop", this);
     int64_t t = top_.load(std::memory_order_relaxed);
 
     if (t > b) {
       // Empty. Restore bottom.
+      DISPENSO_VERIF_POINT("PopEmptyStBot", this);
       bottom_.store(b + 1, std::memory_order_relaxed);
       return false;
     }
@@ -193,7 +201,9 @@ class ChaseLevDeque {
       return true;
     }
     // t == b: last element. Race with stealers via CAS on top.
+    DISPENSO_VERIF_POINT("PopLastStBot", this);
     bottom_.store(b + 1, std::memory_order_relaxed);
+    DISPENSO_VERIF_POINT("PopCas", this);
     return top_.compare_exchange_strong(
         t, t + 1, std::memory_order_seq_cst, std::memory_order_relaxed);
   }
@@ -206,12 +216,17 @@ class ChaseLevDeque {
    * @return true on success, false otherwise.
    */
   bool try_pop_into(T* storage) {
+    DISPENSO_VERIF_POINT("PopLdBot", this);
     const int64_t b = bottom_.load(std::memory_order_relaxed) - 1;
+    DISPENSO_VERIF_POINT("PopStBot", this);
     bottom_.store(b, std::memory_order_relaxed);
+    DISPENSO_VERIF_POINT("PopFence", this);
     std::atomic_thread_fence(std::memory_order_seq_cst);
+    DISPENSO_VERIF_POINT("PopLdTop", this);
     int64_t t = top_.load(std::memory_order_relaxed);
 
     if (t > b) {
+      DISPENSO_VERIF_POINT("PopEmptyStBot", this);
       bottom_.store(b + 1, std::memory_order_relaxed);
       return false;
     }
@@ -219,9 +234,11 @@ class ChaseLevDeque {
       std::memcpy(storage, slotPtr(b), sizeof(T));
       return true;
     }
+    DISPENSO_VERIF_POINT("PopLastStBot", this);
     bottom_.store(b + 1, std::memory_order_relaxed);
     alignas(T) char tmp[sizeof(T)];
     std::memcpy(tmp, slotPtr(b), sizeof(T));
+    DISPENSO_VERIF_POINT("PopCas", this);
     if (!top_.compare_exchange_strong(
             t, t + 1, std::memory_order_seq_cst, std::memory_order_relaxed)) {
       return false;
@@ -245,10 +262,13 @@ class ChaseLevDeque {
    *       not exposed; callers may retry on false if work is expected.
    */
   bool try_steal(T& out) {
+    DISPENSO_VERIF_POINT("StLdTop", this);
     int64_t t = top_.load(std::memory_order_acquire);
     // Seq-cst fence pairs with the fence in try_pop: ensures we observe an updated
     // bottom if the owner has decremented past us.
+    DISPENSO_VERIF_POINT("StFence", this);
     std::atomic_thread_fence(std::memory_order_seq_cst);
+    DISPENSO_VERIF_POINT("StLdBot", this);
     const int64_t b = bottom_.load(std::memory_order_acquire);
     if (t >= b) {
       return false;
@@ -264,6 +284,7 @@ class ChaseLevDeque {
     DISPENSO_TSAN_ANNOTATE_IGNORE_READS_BEGIN();
     out = *slotPtr(t);
     DISPENSO_TSAN_ANNOTATE_IGNORE_READS_END();
+    DISPENSO_VERIF_POINT("StCas", this);
     return top_.compare_exchange_strong(
         t, t + 1, std::memory_order_seq_cst, std::memory_order_relaxed);
   }
@@ -273,8 +294,11 @@ class ChaseLevDeque {
    * @see try_steal(T&)
    */
   bool try_steal_into(T* storage) {
+    DISPENSO_VERIF_POINT("StLdTop", this);
     int64_t t = top_.load(std::memory_order_acquire);
+    DISPENSO_VERIF_POINT("StFence", this);
     std::atomic_thread_fence(std::memory_order_seq_cst);
+    DISPENSO_VERIF_POINT("StLdBot", this);
     const int64_t b = bottom_.load(std::memory_order_acquire);
     if (t >= b) {
       return false;
@@ -285,10 +309,12 @@ class ChaseLevDeque {
     DISPENSO_TSAN_ANNOTATE_IGNORE_READS_BEGIN();
     std::memcpy(tmp, slotPtr(t), sizeof(T));
     DISPENSO_TSAN_ANNOTATE_IGNORE_READS_END();
+    DISPENSO_VERIF_POINT("StCas", this);
     if (!top_.compare_exchange_strong(
             t, t + 1, std::memory_order_seq_cst, std::memory_order_relaxed)) {
       return false;
     }
+    DISPENSO_VERIF_POINT("StCopy", this);
     std::memcpy(storage, tmp, sizeof(T));
     return true;
   }
@@ -299,14 +325,18 @@ class ChaseLevDeque {
 
   /// @brief Returns true if the deque appears empty.
   bool empty() const {
+    DISPENSO_VERIF_POINT("ObsLdBot", this);
     const int64_t b = bottom_.load(std::memory_order_acquire);
+    DISPENSO_VERIF_POINT("ObsLdTop", this);
     const int64_t t = top_.load(std::memory_order_acquire);
     return b <= t;
   }
 
   /// @brief Returns the apparent number of elements in the deque.
   size_type size() const {
+    DISPENSO_VERIF_POINT("ObsLdBot", this);
     const int64_t b = bottom_.load(std::memory_order_acquire);
+    DISPENSO_VERIF_POINT("ObsLdTop", this);
     const int64_t t = top_.load(std::memory_order_acquire);
     return b > t ? static_cast<size_type>(b - t) : 0;
   }
